@@ -48,11 +48,29 @@ Prog2(s, lit, ph) == <<[form |-> "assign", name |-> Name, rhs |-> s], [form |-> 
 MoneyProgs == UNION {{Prog2(s, MoneyLitOf(s), ph) : ph \in MoneyPhrases(MoneyLitOf(s))} : s \in MoneyFirst}
 UnitProgs == UNION {{Prog2(s, UnitLitOf(s), ph) : ph \in UnitPhrases(UnitLitOf(s))} : s \in UnitFirst}
 DurProgs == UNION {{Prog2(s, DurLitOf(s), ph) : ph \in DurPhrases(DurLitOf(s))} : s \in DurFirst}
-VARIABLE prog
+\* durations held by names and written next to each other (C10 + C03): three bindings, then a line of names and literals
+NA == <<"zorp">>  NB == <<"blip">>  NC == <<"quux">>
+N(n) == [name |-> n]
+L(ps) == [parts |-> ps]
+DurBindings == {<<<<P(1, "hour")>>, <<P(20, "minute")>>, <<P(5, "second")>>>>, <<<<P(2, "day")>>, <<P(3, "hour"), P(30, "minute")>>, <<P(45, "second")>>>>,
+                <<<<P(1, "week")>>, <<P(1, "day")>>, <<P(1, "hour")>>>>}
+DurSeqs == {<<N(NA), N(NB)>>, <<N(NA), N(NB), N(NC)>>, <<N(NC), N(NB), N(NA)>>, <<N(NA), L(<<P(10, "minute")>>), N(NB)>>, <<N(NC), N(NB), N(NA), N(NC)>>,
+            <<L(<<P(2, "day")>>), N(NA), N(NB), N(NC)>>, <<N(NA), N(NB), N(NC), N(NA), N(NB)>>, <<N(NA), N(NB), N(NC), N(NA), N(NB), N(NC)>>,
+            <<N(NA), N(NB), N(NC), L(<<P(1, "minute")>>), N(NA), N(NB), N(NC)>>, <<N(NB), N(NB), N(NB)>>, <<N(NA), N(NB), L(<<P(7, "second")>>)>>}
+DurSeqProgs == {<<[form |-> "assign", name |-> NA, rhs |-> [form |-> "dur_lit", parts |-> b[1]]], [form |-> "assign", name |-> NB, rhs |-> [form |-> "dur_lit", parts |-> b[2]]],
+                  [form |-> "assign", name |-> NC, rhs |-> [form |-> "dur_lit", parts |-> b[3]]], [form |-> "dur_seq", items |-> s]>> : b \in DurBindings, s \in DurSeqs}
+VARIABLES prog, tz
+\* default zones other than UTC: a time that names no zone lives in the calculator's default zone, whose day is not UTC's
+DefZones == {[name |-> "GMT+10", off |-> 600], [name |-> "GMT-11:30", off |-> -690]}
+CtxZ(dz) == [Ctx0 EXCEPT !.calc.tz = dz]
+TimeLitUnder(dz, l) == LET t == LineMeaning(CtxZ(dz), l).slot IN [form |-> "time_lit", w |-> TimePrinted(t)[1], z |-> l.z]
+TimeProgsUnder(dz) == UNION {{<<[form |-> "assign", name |-> Name, rhs |-> s], [form |-> "via", name |-> Name, operand |-> TimeLitUnder(dz, s), phrase |-> ph]>> :
+                               ph \in TimePhrases(TimeLitUnder(dz, s))} : s \in {x \in TimeShifts : x.z = NoZone}}
 \* (a bound of a set constructor may not depend on another: programs are built shift by shift)
 TimeProgs == UNION {{<<[form |-> "assign", name |-> Name, rhs |-> s], [form |-> "via", name |-> Name, operand |-> TimeLitOf(s), phrase |-> ph]>> : ph \in TimePhrases(TimeLitOf(s))} : s \in TimeShifts}
 DateProgs == UNION {{<<[form |-> "assign", name |-> Name, rhs |-> s], [form |-> "via", name |-> Name, operand |-> DateLitOf(s), phrase |-> ph]>> : ph \in DatePhrases(DateLitOf(s))} : s \in DateShifts}
-Init == prog \in TimeProgs \cup DateProgs \cup MoneyProgs \cup UnitProgs \cup DurProgs
-Next == UNCHANGED prog
-Emit == PrintT(<<"CASE", ToJson([lines |-> prog, expected |-> RunLines(Ctx0, prog, <<>>).slots])>>)
+Init == \/ tz = Ctx0.calc.tz /\ prog \in TimeProgs \cup DateProgs \cup MoneyProgs \cup UnitProgs \cup DurProgs \cup DurSeqProgs
+        \/ \E dz \in DefZones : tz = dz /\ prog \in TimeProgsUnder(dz)
+Next == UNCHANGED <<prog, tz>>
+Emit == PrintT(<<"CASE", ToJson([lines |-> prog, tz |-> tz, expected |-> RunLines(CtxZ(tz), prog, <<>>).slots])>>)
 =============================================================================
